@@ -682,6 +682,32 @@ def policer_guard(ctx, rep, rule):
             elif absent and norps:
                 rep.check(rule, mod + ".__init__|no-policer", v in (None, "None"), "no policer by default", "self._policer = %s without policer / limit_rps" % v,
                           ctx.py.loc(mod, node))
+            elif absent and v in (None, "None"):
+                # no limiter on a path that did not establish `limit_rps` absent or zero: a compound test (`limit_rps and
+                # limit_rps > 0`) lets a rate through that RPSPolicer would have refused
+                other = [c for c, val in p.conds if "limit_rps" in c and c not in ("limit_rps", "eq(None,limit_rps)")]
+                # the compound test is folded over sample rates: the path is taken for a non-zero rate?
+                verdicts = []
+                for sample in (-1, -0.5, 0.5, 1, 5, 10 ** 12):
+                    ok_all = True
+                    for c, val in p.conds:
+                        if "limit_rps" not in c:
+                            continue
+                        try:
+                            r = bool(eval(c, {"__builtins__": {}}, {"limit_rps": sample, "eq": lambda a, b: a is b or a == b,  # noqa: S307
+                                                                    "policer": None, "None": None, "isinstance": isinstance, "int": int, "float": float}))
+                        except Exception:  # noqa: BLE001
+                            ok_all = None
+                            break
+                        if r != bool(val):
+                            ok_all = False
+                            break
+                    verdicts.append(ok_all)
+                if other and None in verdicts:
+                    rep.inconclusive(rule, mod + ".__init__|limit_rps", "test `%s` on limit_rps not evaluated" % other[0], ctx.py.loc(mod, node))
+                elif other and any(verdicts):
+                    rep.violation(rule, mod + ".__init__|limit_rps", "the session is built without a limiter on a path where limit_rps need not be "
+                                  "None or 0 (decided by `%s`): a rate RPSPolicer refuses is silently ignored" % other[0], ctx.py.loc(mod, node), obligation=True)
         if not any(k[0] for k in seen) or not any(k[1] and k[2] for k in seen):
             rep.missing(rule, mod + ".__init__: policer / limit_rps cases")
     # the policer of a session is chosen once, in the constructor: no method replaces or clears it later
@@ -920,6 +946,32 @@ def errors_propagate(ctx, rep, rule):
         rep.missing(rule, "sync_client: socket calls in get / get_many / refresh (found %d)" % n)
 
 
+def iter_errors_propagate(ctx, rep, rule):
+    """The sync walk iterators hand every error of the socket to the caller: around `self._sock.get_next / get_bulk` the only
+    handlers are StopAsyncIteration -> StopIteration (the end of the walk) and BlockingIOError -> TimeoutError.  A wider
+    `except` (SnmpError, Exception) ends the walk silently where the request was refused (SnmpEncodeError for a request that
+    does not fit, SnmpAuthError for a Report)."""
+    allowed = {("StopAsyncIteration", "StopIteration"), ("BlockingIOError", "TimeoutError")}
+    n = 0
+    for mod, cls, meth in (("sync_getnext", "GetNextIter", "get_next"), ("sync_getbulk", "GetBulkIter", "get_bulk")):
+        ps = paths(ctx, rep, rule, mod, cls, "__next__")
+        if not ps:
+            continue
+        bad = None
+        for p in ps:
+            for i, e in calls(p, "self._sock." + meth):
+                n += 1
+                for h in e.handlers:
+                    if (h[0], h[1]) not in allowed:
+                        bad = bad or (e, h)
+        rep.check(rule, "%s.%s.__next__|errors propagate" % (mod, cls), bad is None, "only the end-of-walk and timeout mappings",
+                  "self._sock.%s() is called under `except %s`%s: an error of the request ends the walk silently instead of reaching the caller" %
+                  (meth, bad[1][0] if bad else "", "" if not bad or bad[1][1] is None else " (re-raised as %s)" % bad[1][1]),
+                  loc(ctx, mod, bad[0]) if bad else "", obligation=True)
+    if n < 2:
+        rep.missing(rule, "sync iterators: socket calls in __next__ (found %d)" % n)
+
+
 def key_classes(ctx, rep, rule):
     """The key classes of user.py are plain carriers: (a) none defines __len__ / __bool__ - `if self.priv_key` in User asks
     "is a key configured", an empty key is a configured key that the socket must refuse; (b) the privacy key classes take
@@ -977,6 +1029,107 @@ def async_never_blocks(ctx, rep, rule):
                           loc(ctx, mod, bad) if bad else ctx.py.loc(mod, node), obligation=True)
     if n < 5:
         rep.missing(rule, "async methods of policer / async_client (found %d)" % n)
+
+
+def wait_once(ctx, rep, rule):
+    """A request consults the limiter once.  Where `self._policer.wait()` / `wait_sync()` stands inside a loop, no
+    iteration may come round again after a failed send: a `try` in the same loop whose handler falls through (no raise /
+    return / break at its end) retries the send *and* the wait, so a request that met a full socket buffer takes two slots
+    and is held back for up to two intervals."""
+    m = model(ctx)
+    n = 0
+    for mod in ("sync_client", "sync_getnext", "sync_getbulk", "async_client"):
+        for cls, meths in sorted(m.classes.get(mod, {}).items()):
+            for meth, node in sorted(meths.items()):
+                parents = {}
+                for a in ast.walk(node):
+                    for c in ast.iter_child_nodes(a):
+                        parents[id(c)] = a
+                for call in [x for x in ast.walk(node) if isinstance(x, ast.Call) and ast.unparse(x.func).endswith(("._policer.wait", "._policer.wait_sync"))]:
+                    n += 1
+                    loops, cur, flagged = [], call, False
+                    while id(cur) in parents and cur is not node:
+                        cur = parents[id(cur)]
+                        if isinstance(cur, (ast.FunctionDef, ast.AsyncFunctionDef, ast.Lambda)) and cur is not node:
+                            loops = None
+                            break
+                        if isinstance(cur, (ast.While, ast.For, ast.AsyncFor)):
+                            loops.append(cur)
+                        if isinstance(cur, ast.If) and loops == []:
+                            # `if self._policer and not waited:` - a guard on a local the function assigns
+                            names = {x.id for x in ast.walk(cur.test) if isinstance(x, ast.Name) and x.id != "self"}
+                            assigned = {t.id for a_ in ast.walk(node) if isinstance(a_, (ast.Assign, ast.AugAssign, ast.AnnAssign))
+                                        for t in ast.walk(a_) if isinstance(t, ast.Name) and isinstance(t.ctx, ast.Store)}
+                            flagged = flagged or bool(names & assigned)
+                    key = "%s.%s.%s|limiter consulted once per request" % (mod, cls, meth)
+                    if not loops:
+                        rep.ok(rule, key, "not in a loop", ctx.py.loc(mod, call), obligation=True)
+                        continue
+                    retry = None
+                    for lp in loops:
+                        for t in [x for x in ast.walk(lp) if isinstance(x, ast.Try)]:
+                            for h in t.handlers:
+                                last = h.body[-1] if h.body else None
+                                if not isinstance(last, (ast.Raise, ast.Return, ast.Break)):
+                                    retry = retry or h
+                    if retry is None:
+                        rep.ok(rule, key, "in a loop without a retrying handler", ctx.py.loc(mod, call), obligation=True)
+                    elif flagged:
+                        rep.inconclusive(rule, key, "the wait is guarded by a local flag inside a retry loop", ctx.py.loc(mod, call))
+                    else:
+                        rep.violation(rule, key, "the wait stands in a loop that comes round again after `except %s` (line %d): a request whose send is "
+                                      "retried consults the limiter again and takes a second slot" % (ast.unparse(retry.type) if retry.type else "", retry.lineno),
+                                      ctx.py.loc(mod, call), obligation=True)
+    if n < 5:
+        rep.missing(rule, "calls of the limiter in the clients (found %d)" % n)
+
+
+def readiness_released(ctx, rep, rule):
+    """Every `loop.add_reader(fd, ..)` / `add_writer(fd, ..)` of the asyncio client is undone on every way out of the wait,
+    cancellation included: each `await` that follows the registration stands in a `try` whose `finally` (or whose
+    catch-all handler) calls the matching `remove_reader` / `remove_writer`.  wait_for() ends a wait that timed out by
+    cancelling it at the await; a registration that survives it keeps firing into a dead future and, once the descriptor
+    number is reused, swallows the readiness of another session's socket."""
+    m = model(ctx)
+    n = 0
+    for cls, meths in sorted(m.classes.get("async_client", {}).items()):
+        for meth, node in sorted(meths.items()):
+            parents = {}
+            for a in ast.walk(node):
+                for c in ast.iter_child_nodes(a):
+                    parents[id(c)] = a
+            for stmt in [x for x in ast.walk(node) if isinstance(x, ast.Expr) and isinstance(x.value, ast.Call)]:
+                fn = ast.unparse(stmt.value.func)
+                kind = "reader" if fn.endswith(".add_reader") else "writer" if fn.endswith(".add_writer") else None
+                if kind is None:
+                    continue
+                n += 1
+                par = parents.get(id(stmt))
+                later = []
+                for fld in ("body", "orelse", "finalbody"):
+                    lst = getattr(par, fld, None)
+                    if isinstance(lst, list) and stmt in lst:
+                        later = lst[lst.index(stmt) + 1:]
+                bad = None
+                for st_ in later:
+                    for aw in [x for x in ast.walk(st_) if isinstance(x, ast.Await)]:
+                        cur, covered = aw, False
+                        while id(cur) in parents and cur is not par:
+                            up = parents[id(cur)]
+                            if isinstance(up, ast.Try) and any(cur is b for b in up.body):
+                                rel = lambda body: any(isinstance(c, ast.Call) and ast.unparse(c.func).endswith(".remove_" + kind)  # noqa: E731
+                                                       for s_ in body for c in ast.walk(s_))
+                                if rel(up.finalbody) or any((h.type is None or ast.unparse(h.type) == "BaseException") and rel(h.body) for h in up.handlers):
+                                    covered = True
+                            cur = up
+                        if not covered:
+                            bad = bad or aw
+                key = "async_client.%s.%s|add_%s released on every exit" % (cls, meth, kind)
+                rep.check(rule, key, bad is None, "await under try/finally remove_%s" % kind,
+                          "an await after add_%s (line %s) is not covered by a try whose finally calls remove_%s: a wait that is cancelled by the "
+                          "deadline leaves the registration behind" % (kind, getattr(bad, "lineno", "?"), kind), ctx.py.loc("async_client", stmt), obligation=True)
+    if n < 2:
+        rep.missing(rule, "async_client: add_reader / add_writer registrations (found %d)" % n)
 
 
 def passthrough(ctx, rep, rule):
